@@ -63,6 +63,10 @@ class ErrorRender:
 		if not os.path.exists(filepath):
 			return []
 
+		# XXX ソース上に位置を持たないノード(空要素・仮想ノード)は引用しない
+		if node.source_map['begin'][0] <= 0:
+			return []
+
 		# XXX Larkのソースマップは+1されているため-1
 		source_map = (
 			node.source_map['begin'][0] - 1,
